@@ -15,12 +15,17 @@ use crate::tag_iterator_util::AllowableErrors;
 // ---------------------------------------------------------------------------------------------
 // scripted source
 // ---------------------------------------------------------------------------------------------
-pub struct ScriptSrc { pub data: Vec<u8>, pub pos: usize, pub chunk: Vec<usize>, pub k: usize, pub pauses: Vec<usize>, pub fail_at: Option<usize>, pub reads: usize }
+pub struct ScriptSrc { pub data: Vec<u8>, pub pos: usize, pub chunk: Vec<usize>, pub k: usize, pub pauses: Vec<usize>, pub fail_at: Option<usize>, pub reads: usize, pub eof_polls: usize }
 impl Read for ScriptSrc {
     fn read(&mut self, buf: &mut [u8]) -> std::io::Result<usize> {
         self.reads += 1;
         if let Some(f) = self.fail_at { if self.pos >= f { return Err(std::io::Error::new(std::io::ErrorKind::Other, "scripted failure")); } }
         if let Some(i) = self.pauses.iter().position(|p| *p == self.pos) { self.pauses.remove(i); return Ok(0); }
+        if self.pos >= self.data.len() && !buf.is_empty() {
+            // watchdog: a caller that keeps polling an exhausted source is not making progress ("no hang")
+            self.eof_polls += 1;
+            if self.eof_polls > 5000 { panic!("the exhausted source was polled more than 5000 times: next() does not return"); }
+        }
         let mut n = (self.data.len() - self.pos).min(buf.len());
         if !self.chunk.is_empty() { n = n.min(self.chunk[self.k % self.chunk.len()].max(1)); self.k += 1; }
         // never read across a pending pause point
@@ -67,7 +72,7 @@ fn show_items(items: &[(T, usize)]) -> String { items.iter().map(|(t, o)| format
 fn show_trace(t: &Trace) -> String { format!("[{}] err={:?}{}", show_items(&t.items), t.err, t.panicked.as_ref().map(|p| format!(" PANIC {}", p)).unwrap_or_default()) }
 
 pub fn make(input: &[u8], cfg: &Cfg) -> TagIterator<ScriptSrc, T> {
-    let src = ScriptSrc { data: input.to_vec(), pos: 0, chunk: cfg.chunk.clone(), k: 0, pauses: cfg.pauses.clone(), fail_at: None, reads: 0 };
+    let src = ScriptSrc { data: input.to_vec(), pos: 0, chunk: cfg.chunk.clone(), k: 0, pauses: cfg.pauses.clone(), fail_at: None, reads: 0, eof_polls: 0 };
     let buffered: Vec<T> = cfg.buffered.iter().map(|id| T::M(*id, Master::Start)).collect();
     let mut it: TagIterator<ScriptSrc, T> = TagIterator::with_capacity(src, &buffered, cfg.cap);
     let mut allow = Vec::new();
@@ -236,6 +241,55 @@ fn with_width(nodes: &[Node], w: usize) -> Vec<Node> {
         Node::L { tag, .. } => Node::L { tag: tag.clone(), width: w },
     }).collect()
 }
+fn children_small(parent: Option<u64>) -> Vec<u64> {
+    use bs::*;
+    match parent { None => vec![ROOT], Some(ROOT) => vec![UINT, PARENT], Some(PARENT) => vec![CHILD, SUB], Some(SUB) => vec![LEAF], _ => vec![] }
+}
+pub fn forests_small(parent: Option<u64>, budget: usize, out: &mut Vec<Vec<Node>>) {
+    if budget == 0 { out.push(vec![]); return; }
+    for id in children_small(parent) {
+        if is_master(id) {
+            for k in 1..=budget {
+                let mut inner = Vec::new();
+                forests_small(Some(id), k - 1, &mut inner);
+                let mut rest = Vec::new();
+                forests_small(parent, budget - k, &mut rest);
+                for i in &inner { for r in &rest {
+                    let mut v = vec![Node::M { id, unknown: false, width: 0, ch: i.clone() }];
+                    v.extend(r.iter().cloned());
+                    out.push(v);
+                } }
+            }
+        } else {
+            let mut rest = Vec::new();
+            forests_small(parent, budget - 1, &mut rest);
+            for t in leaf_variants(id, false) { for r in &rest {
+                let mut v = vec![Node::L { tag: t.clone(), width: 0 }];
+                v.extend(r.iter().cloned());
+                out.push(v);
+            } }
+        }
+    }
+}
+/// single-byte mutations of a document: every byte replaced by its neighbours and by 0x00 / 0x80 / 0xFF; the
+/// single-run contract clauses (C03 mirror/tiling, C06 structure, C13 decision table, C05 totality, C17) must hold on each
+fn check_mutations(table: &bs::Table, bytes: &[u8], rep: &mut Report, thorough: bool) {
+    for i in 0..bytes.len() {
+        let b = bytes[i];
+        for v in [b.wrapping_add(1), b.wrapping_sub(1), 0x00, 0x80, 0xFF] {
+            if v == b { continue; }
+            let mut m = bytes.to_vec();
+            m[i] = v;
+            check_input(table, &m, rep, thorough, false);
+            // the same under full tolerance and a small size limit (C13/C17 limit clause on mutated documents)
+            let cfg = Cfg { max: Some(Some(5)), allow: 7, ..Cfg::strict() };
+            let t = run(&m, &cfg);
+            check_total(&m, &cfg, &t, rep);
+            let over = t.items.iter().any(|(tag, off)| !matches!(tag, T::M(_, Master::End)) && matches!(rf::hdr_at(&m, *off), Hdr::Ok { size: Some(n), .. } if n as usize > 5));
+            rep.clause("C13/C17: with a size limit M no successful item declares a size above M, whatever classes are tolerated", !over, || format!("input={} max=5 allow=7 -> {}", rf::hex(&m), show_trace(&t)));
+        }
+    }
+}
 fn count_masters(nodes: &[Node]) -> usize { nodes.iter().map(|n| match n { Node::M { ch, .. } => 1 + count_masters(ch), _ => 0 }).sum() }
 /// set `unknown` on the masters selected by the bits of `mask` (pre-order numbering)
 fn with_unknown(nodes: &[Node], mask: u32, next: &mut u32) -> Vec<Node> {
@@ -311,7 +365,7 @@ fn check_c03(table: &bs::Table, input: &[u8], tr: &Trace, rep: &mut Report, ctx:
         let h = rf::hdr_at(input, *off);
         let (hid, hl, size) = match h { Hdr::Ok { id, id_len, size, size_len } => (id, id_len + size_len, size), _ => { rep.clause("C03: each non-End item has a complete header at its reported offset", false, ctx); return (next, stack); } };
         rep.clause("C03: each non-End item has exactly the id found at its reported offset", hid == tag.get_id(), ctx);
-        if !seen_nonglobal && !rf::is_global(table, hid) && rf::entry(table, hid).is_some() {
+        if !seen_nonglobal && rf::entry(table, hid).map(|e| e.1.iter().all(|p| matches!(p, PathPart::Id(_)))).unwrap_or(false) {
             seen_nonglobal = true;
             if stack.is_empty() { implied = rf::entry(table, hid).unwrap().1.iter().filter_map(|p| if let PathPart::Id(i) = p { Some(*i) } else { None }).collect(); }
         }
@@ -359,7 +413,9 @@ fn check_c06(table: &bs::Table, input: &[u8], tr: &Trace, rep: &mut Report, ctx:
                 let exhausted = stack.iter().any(|(_, e)| matches!(e, Some(e) if *e <= *off));
                 rep.clause("C06: a known-size master's End is emitted exactly when its byte range is exhausted (or at end of input)", !exhausted, ctx);
                 let (ty, path) = match rf::entry(table, id) { Some(e) => e, None => { rep.clause("C06/C13: in strict mode no successful item is a raw tag (every id is known to the specification)", false, ctx); return; } };
-                let global = rf::is_global(table, id);
+                // only an element whose declared path names every ancestor (no placeholder) can fix the position in the
+                // document; until then the first elements are trusted (reading may start mid-document)
+                let global = rf::is_global(table, id) || path.iter().any(|p| matches!(p, PathPart::Global(_)));
                 if !position_fixed && !global {
                     position_fixed = true;
                     if stack.is_empty() {
@@ -513,6 +569,14 @@ fn check_input(table: &bs::Table, input: &[u8], rep: &mut Report, thorough: bool
             fi += fl.len();
         }
         rep.clause("C03/C08: a Full item reports the offset of the master's start; items outside buffered masters keep their offsets", ok_off, &ctx);
+        // the same with end-of-stream closing disabled (a buffered master whose End never comes must not hang)
+        let cfg2 = Cfg { buffered: set.clone(), eof_close: false, ..Cfg::strict() };
+        let t2 = run(input, &cfg2);
+        check_total(input, &cfg2, &t2, rep);
+        let mut flat2 = Vec::new();
+        for (x, _) in &t2.items { rf::flatten(x, &mut flat2); }
+        let prefix2 = flat2.len() <= want.len() && flat2.iter().zip(want.iter()).all(|(a, b)| rf::tag_eq(a, b));
+        rep.clause("C08: with end-of-stream closing disabled, replacing each Full item by Start, children, End still yields a prefix of the unbuffered sequence", prefix2, || format!("input={} buffered={:x?} eof_close=false -> {}   flat -> {}", rf::hex(input), set, show_trace(&t2), show_trace(&base)));
     }
 }
 
@@ -619,8 +683,37 @@ pub fn unit_docs(budget: usize, thorough: bool) -> Report {
             check_trunc(&table, &wb, &wflat, &mut rep);
         }
         check_recover(&table, &bytes, &flat, &mut rep, thorough);
+        check_mutations(&table, &bytes, &mut rep, thorough);
         check_c02(&table, &bytes, &tr, &mut rep);
         check_pauses(&table, &bytes, &flat, &tr, &mut rep);
+    }
+    // deeper forests over a small alphabet (Root > Parent > Sub with one leaf type per level): recovery, truncation,
+    // unknown-size closing and mutations need depth and trailing siblings more than they need element variety
+    let mut deep: Vec<Vec<Node>> = Vec::new();
+    for b in (budget + 1)..=(budget + 2) { forests_small(None, b, &mut deep); }
+    rep.notes.push(format!("BOUNDED: plus every forest with {}..={} nodes over the small alphabet Root/UInt/Parent/Child/Sub/Leaf ({} forests)", budget + 1, budget + 2, deep.len()));
+    for d in &deep {
+        let (bytes, flat) = encode_doc(d);
+        let tr = run(&bytes, &Cfg::strict());
+        rep.cases += 1; rep.nontrivial += 1;
+        rep.clause("C01r/C03: a specification-conformant document reads (strict) as exactly its tags, in order, with their offsets, and no error", tr.err.is_none() && tr.panicked.is_none() && same_items(&tr.items, &flat), || format!("bytes={} -> {}", rf::hex(&bytes), show_trace(&tr)));
+        check_recover(&table, &bytes, &flat, &mut rep, thorough);
+        check_trunc(&table, &bytes, &flat, &mut rep);
+        check_mutations(&table, &bytes, &mut rep, false);
+        let m = count_masters(d);
+        if m > 0 && m <= 6 {
+            for mask in 1u32..(1 << m) {
+                let mut c = 0;
+                let du = with_unknown(d, mask, &mut c);
+                if ambiguous(&table, &du, None) { continue; }
+                let (ub, _) = encode_doc(&du);
+                let t = run(&ub, &Cfg::strict());
+                let same = t.err.is_none() && t.items.len() == flat.len() && t.items.iter().zip(flat.iter()).all(|(a, b)| rf::tag_eq(&a.0, &b.0));
+                rep.clause("C07: a document with any subset of masters encoded with unknown size reads as the same tag sequence as the all-known-size encoding", same, || format!("bytes={} unknown-mask={:b} -> {}", rf::hex(&ub), mask, show_trace(&t)));
+                check_c02(&table, &ub, &t, &mut rep);
+                check_mutations(&table, &ub, &mut rep, false);
+            }
+        }
     }
     if let Some(d) = docs.get(docs.len() / 2) { let (b, f) = encode_doc(d); rep.samples.push(format!("{} = {}", f.iter().map(|(t, _)| rf::show(t)).collect::<Vec<_>>().join(","), rf::hex(&b))); }
     rep
@@ -765,7 +858,7 @@ fn check_recover(table: &bs::Table, bytes: &[u8], flat: &[(T, usize)], rep: &mut
                 rep.clause("C14: recovery resumes at the first tag after the junk", resumed_at == Some(at + junk.len()), || ctx(format!("resumed at {:?}", resumed_at)));
                 // tags before the junk unchanged; all remaining tags exactly as in the undamaged document (offsets at/after the junk shifted by its length)
                 let same = all.len() == flat.len() && all.iter().zip(flat.iter()).all(|(a, b)| rf::tag_eq(&a.0, &b.0) && a.1 == if b.1 >= at { b.1 + junk.len() } else { b.1 });
-                rep.clause("C14: the tags before the junk are emitted unchanged and all remaining tags exactly as in the undamaged document", same, || ctx(format!("got=[{}] want=[{}]", show_items(&all), show_items(flat))));
+                rep.clause("C14/C03: the tags before the junk are emitted unchanged and all remaining tags exactly as in the undamaged document (offsets at/after the junk shifted by its length, End offsets = the master's start)", same, || ctx(format!("got=[{}] want=[{}]", show_items(&all), show_items(flat))));
             }
         }
     }
